@@ -2,7 +2,7 @@
 
 from __future__ import annotations
 
-from .. import gen, probe, spec
+from .. import smallworld, gen, probe, spec
 from ..probe import violation
 from .common import scale_leg, call, grow_while_asking, use_as_input_of_derivations
 from .c03 import make_prefix_free
@@ -29,6 +29,27 @@ ASSUMPTIONS = ["reference model rtmon.spec.SpecConverter"]
 
 def run_case(ctx, g, rng):
     api, S = ctx.api, probe.S
+    if smallworld.active(ctx, g):
+        for c_, recs_, d_ in smallworld.chunk(ctx, g):
+            pf_ = spec.SpecConverter(recs_, d_).prefix_free()
+            for q in smallworld.queries(ctx.tier, d_):
+                a_ = call(c_.standardize_prefix, q)
+                b_ = call(c_.standardize_curie, q)
+                u_ = call(c_.standardize_uri, q)
+                probe.evaluated("idempotence")
+                if a_[0] == "ret" and a_[1] is not None and call(c_.standardize_prefix, a_[1]) != a_:
+                    violation(["C06"], "idempotence", "standardize_prefix-not-idempotent", prefix=q, first=a_, records=[spec.rec_dict(r) for r in recs_], delimiter=d_)
+                if b_[0] == "ret" and b_[1] is not None:
+                    if call(c_.standardize_curie, b_[1]) != b_:
+                        violation(["C06"], "idempotence", "standardize_curie-not-idempotent", curie=q, first=b_, records=[spec.rec_dict(r) for r in recs_], delimiter=d_)
+                    if call(c_.expand, b_[1]) != call(c_.expand, q):
+                        violation(["C06"], "idempotence", "standardize_curie-changes-meaning", curie=q, standardized=b_, records=[spec.rec_dict(r) for r in recs_], delimiter=d_)
+                if pf_ and u_[0] == "ret" and u_[1] is not None:
+                    if call(c_.standardize_uri, u_[1]) != u_:
+                        violation(["C06"], "idempotence", "standardize_uri-not-idempotent-on-prefix-free-map", uri=q, first=u_, records=[spec.rec_dict(r) for r in recs_], delimiter=d_)
+                    if call(c_.compress, u_[1]) != call(c_.compress, q):
+                        violation(["C06"], "idempotence", "standardize_uri-changes-meaning-on-prefix-free-map", uri=q, standardized=u_, records=[spec.rec_dict(r) for r in recs_], delimiter=d_)
+        probe.note_key(f"curie-small-world:chunk{g % 40}", True)
     scale_leg(ctx, rng, rng.choice([":", ":", "/", "::"]), modes=False, g=g)
     d = rng.choice(gen.DELIMS)
     recs = gen.records(rng, d, 1, 5)
@@ -102,3 +123,7 @@ def run_case(ctx, g, rng):
         p = known[-1]
         probe.sample({**w, "built": how, "prefix": p, "standardize_prefix": call(c.standardize_prefix, p),
                       "standardize_curie": call(c.standardize_curie, p + d + "1")})
+
+
+def EXHAUSTIVE(tier, counters):
+    return smallworld.exhaustive(tier, counters)
